@@ -53,7 +53,7 @@ theorem abs_setBalance {h : Hist} (r : Reachable h) (a : Nat) (v : Int) :
     · rfl
     · rename_i hne; simpa using hne
   · intro k
-    rw [m.1, ← m.2.1, (obs_absSt _).2, (obs_absSt _).2]
+    rw [m.1, ← m.2.1, (obs_absSt _).2.1, (obs_absSt _).2.1]
     unfold AState.setBalance; split <;> rfl
 
 /-- SetValue a k v (v ≠ 0, i.e. a non-empty value): key `k` of `a` reads `v`; other keys, the
@@ -72,10 +72,10 @@ theorem abs_setValue {h : Hist} (r : Reachable h) (a k v : Nat) (hv : v ≠ 0) :
     intro st; unfold AState.setValue; simp [hv]
   refine ⟨?_, ?_, m.2.2, ?_⟩
   · intro k'
-    rw [m.1, ← m.2.1, (obs_absSt _).2, (obs_absSt _).2, hs]
+    rw [m.1, ← m.2.1, (obs_absSt _).2.1, (obs_absSt _).2.1, hs]
     exact kvGet_kvSet _ _ _ _
   · rw [m.1, ← m.2.1, (obs_absSt _).1, (obs_absSt _).1, hs]
-  · rw [← m.2.1, (obs_absSt _).2, hs]
+  · rw [← m.2.1, (obs_absSt _).2.1, hs]
 
 /-- DeleteValue a k (and SetValue with an empty value): key `k` of `a` reads nil afterwards;
     everything else is untouched -/
@@ -89,7 +89,7 @@ theorem abs_deleteValue {h : Hist} (r : Reachable h) (a k : Nat) :
   simp only
   refine ⟨?_, ?_, m.2.2⟩
   · intro k'
-    rw [m.1, ← m.2.1, (obs_absSt _).2, (obs_absSt _).2]
+    rw [m.1, ← m.2.1, (obs_absSt _).2.1, (obs_absSt _).2.1]
     unfold AState.deleteValue
     split
     · rename_i hn; simp [hn, kvGet]
@@ -106,6 +106,46 @@ theorem abs_deleteValue {h : Hist} (r : Reachable h) (a k : Nat) :
     split
     · rfl
     · split <;> rfl
+
+/-- deploying code `c` (InitContractAccount + DeployContract + AcceptContract): the account is a
+    contract with current code `c`; balance, storage and all other accounts are untouched -/
+theorem abs_deploy {h : Hist} (r : Reachable h) (a c : Nat) :
+    obsCode ((h.w.deploy a c).abs a) = some c ∧
+    obsBal ((h.w.deploy a c).abs a) = obsBal (h.w.abs a) ∧
+    (∀ k, obsGet ((h.w.deploy a c).abs a) k = obsGet (h.w.abs a) k) ∧
+    ∀ b, b ≠ a → (h.w.deploy a c).abs b = h.w.abs b := by
+  have m := mutate_abs h.w _ (reachable_inv r) a (fun st => st.deploy c)
+  simp only at m
+  unfold World.deploy
+  refine ⟨?_, ?_, ?_, m.2.2⟩
+  · rw [m.1, (obs_absSt _).2.2.1]; rfl
+  · rw [m.1, ← m.2.1, (obs_absSt _).1, (obs_absSt _).1]; rfl
+  · intro k; rw [m.1, ← m.2.1, (obs_absSt _).2.1, (obs_absSt _).2.1]; rfl
+
+/-- SetObjGraph on a contract account: the object graph of its current contract becomes
+    `Changed(nh, g)`; balance, code, storage and all other accounts are untouched -/
+theorem abs_setObjGraph {h : Hist} (r : Reachable h) (a nh g c : Nat) (hc : obsCode (h.w.abs a) = some c) :
+    obsGraph ((h.w.setObjGraph a nh g).abs a) = graphChanged nh g ∧
+    obsCode ((h.w.setObjGraph a nh g).abs a) = some c ∧
+    obsBal ((h.w.setObjGraph a nh g).abs a) = obsBal (h.w.abs a) ∧
+    (∀ k, obsGet ((h.w.setObjGraph a nh g).abs a) k = obsGet (h.w.abs a) k) ∧
+    ∀ b, b ≠ a → (h.w.setObjGraph a nh g).abs b = h.w.abs b := by
+  have m := mutate_abs h.w _ (reachable_inv r) a (fun st => st.setObjGraph nh g)
+  simp only at m
+  unfold World.setObjGraph
+  rw [← m.2.1, (obs_absSt _).2.2.1] at hc
+  have hs : (h.w.getAccountState a).2.setObjGraph nh g =
+      { (h.w.getAccountState a).2 with
+        hdr := { (h.w.getAccountState a).2.hdr with og := ogSet (h.w.getAccountState a).2.hdr.og c (graphChanged nh g) },
+        last := none } := by
+    unfold AState.setObjGraph; rw [hc]
+  refine ⟨?_, ?_, ?_, ?_, m.2.2⟩
+  · rw [m.1, (obs_absSt _).2.2.2, hs]
+    simp only [Hdr.graph, hc, Option.bind_some]
+    exact ogGet_ogSet _ _ _
+  · rw [m.1, (obs_absSt _).2.2.1, hs]; exact hc
+  · rw [m.1, ← m.2.1, (obs_absSt _).1, (obs_absSt _).1, hs]
+  · intro k; rw [m.1, ← m.2.1, (obs_absSt _).2.1, (obs_absSt _).2.1, hs]
 
 /-! ### the property -/
 
@@ -196,13 +236,15 @@ theorem empty_indistinguishable {h : Hist} (r : Reachable h) :
     that was filled and emptied again is absent; reset/hypotheses are satisfiable -/
 section Example
 def exOps : List Op :=
-  [.setBalance 0 5, .setValue 1 0 7, .snapshot, .setBalance 0 0, .deleteValue 1 0, .setValue 2 1 3, .snapshot,
+  [.setBalance 0 5, .setValue 1 0 7, .deploy 3 9, .setObjGraph 3 1 4, .snapshot, .setObjGraph 3 2 5, .setBalance 0 0, .deleteValue 1 0, .setValue 2 1 3, .snapshot,
    .clearCache, .reset 0, .snapshot]
 def exH : Hist := Hist.init.run exOps
 example : Reachable exH := ⟨exOps, rfl⟩
 example : exH.snaps.length = 3 := by decide
 example : (exH.snaps[1]?.map fun ws => ((ws 0).isNone, (ws 1).isNone, (ws 2).isSome)) = some (true, true, true) := by decide
-example : (exH.snaps[2]?.map fun ws => ((ws 0).map (·.bal), (ws 2).isNone)) = some (some 5, true) := by decide
+example : (exH.snaps[2]?.map fun ws => ((ws 0).map (·.hdr.bal), (ws 2).isNone)) = some (some 5, true) := by decide
+/-- the object graph set after snapshot 0 is in snapshot 1 but not in snapshot 0 nor after Reset(0) -/
+example : (exH.snaps.map fun ws => (ws 3).bind (·.hdr.graph)) = [some (1, 4), some (2, 5), some (1, 4)] := by decide
 end Example
 
 end Goloop.C14
